@@ -69,7 +69,7 @@ ASSUMPTIONS = [
 ]
 TOL = 1e-9
 TOLERANCES = {'design range/mean': TOL, 'spm projection': TOL, 'mne times': 1e-9,
-              'mne data (object)': 0.0, 'mne data (fif, float32)': 1e-6, 'meadows values': 1e-12}
+              'mne data (object)': 0.0, 'mne data (fif, float32)': '1e-6 of the largest value', 'meadows values': 0.0}
 BOUNDS = {
     'quick': {'bids_spellings': ['plain', 'mixed'], 'meadows_n_stim': [3, 4], 'json_layout_len': 3,
               'mne_dims': [1, 2, 3], 'design_grid': [0.0, 3.0, 7.5, 12.0], 'design_dur': [1.0],
@@ -105,7 +105,11 @@ SPELLINGS = {
     'mixed': dict(sub='pilot7', ses='pre', task='Tx2', run='003', space='T1w', desc='smoothAROMAnonaggr'),
     'keywords': dict(sub='ses', ses='run', task='sub', run='task1', space='desc', desc='space'),
     'short': dict(sub='a', ses='b', task='c', run='0', space='d', desc='e'),
+    # numeric-looking labels: leading zeros, '0', values that are prefixes of the other spelling's
+    'numeric_a': dict(sub='1', ses='01', task='1back', run='10', space='2mm', desc='0'),
+    'numeric_b': dict(sub='010', ses='1', task='01', run='01', space='10', desc='1'),
 }
+NUMERIC_SPELLINGS = ['numeric_a', 'numeric_b']
 SUFFIXES = [('bold', 'nii.gz', 'func'), ('events', 'tsv', 'func'), ('mask', 'nii.gz', 'anat'),
             ('timeseries', 'tsv', 'func'), ('dseg', 'json', 'anat')]
 TABLE_SIBLINGS = [('confounds', 'timeseries'), ('aparcaseg', 'dseg')]
@@ -145,9 +149,17 @@ def shards(tier, seed):
             for suffix, ext, modality in SUFFIXES:
                 out.append({'part': 'bids', 'spelling': sp, 'deriv': deriv, 'suffix': suffix,
                             'ext': ext, 'modality': modality})
+    for k, sp in enumerate(NUMERIC_SPELLINGS):
+        for deriv in ((None, 'fmriprep') if thorough else (None, 'fmriprep')[k:k + 1]):
+            for suffix, ext, modality in (SUFFIXES if thorough else SUFFIXES[:1]):
+                out.append({'part': 'bids', 'spelling': sp, 'deriv': deriv, 'suffix': suffix,
+                            'ext': ext, 'modality': modality})
+    for family in CALL_FAMILIES:
+        out.append({'part': 'calls', 'family': family})
+    out.append({'part': 'bids_trees'})
     for lay in SEQ_LAYOUTS:
         n_files = len(_seq_files(lay))
-        for op in SEQ_OPS:
+        for op in (SEQ_OPS if (thorough or lay != 'numeric') else ['all']):
             if thorough:
                 for first in range(n_files):
                     out.append({'part': 'bids_seq', 'layout': lay, 'op': op, 'length': 3, 'first': [first]})
@@ -164,9 +176,16 @@ def shards(tier, seed):
         for nc in b['mne_dims']:
             out.append({'part': 'mne', 'n_epochs': ne, 'n_channel': nc})
     for n_cond in (1, 2, 3):
-        for tr in (1.0, 2.0):
+        for tr in (1.0, 2.0, 0.72):
             for n_vols in (20, 40):
-                for conf in CONFOUND_TABLES:
+                for conf in CONFOUND_TABLES + ['scaled']:
+                    if not thorough:
+                        # quick: the unusual TR and the unusual scales are crossed with one
+                        # volume count and with each other, not with every n/a table
+                        if tr == 0.72 and not (n_vols == 40 and conf in ('none', 'scaled')):
+                            continue
+                        if conf == 'scaled' and tr != 0.72 and not (tr == 1.0 and n_vols == 20):
+                            continue
                     firsts = [[f] for f in range(n_cond + 1)] if thorough else [list(range(n_cond + 1))]
                     for first in firsts:
                         out.append({'part': 'design', 'n_cond': n_cond, 'tr': tr, 'n_vols': n_vols,
@@ -177,7 +196,7 @@ def shards(tier, seed):
                 out.append({'part': 'spm', 'total': total, 'runs': runs})
     if not thorough:
         # interleave the parts so that the slow ones (mne) start early
-        out.sort(key=lambda s: {'mne': 0, 'meadows': 1, 'bids': 2, 'bids_seq': 2, 'design': 3, 'spm': 4}[s['part']])
+        out.sort(key=lambda s: {'mne': 0, 'calls': 0, 'meadows': 1, 'bids': 2, 'bids_seq': 2, 'bids_trees': 2, 'design': 3, 'spm': 4}[s['part']])
     return out
 
 
@@ -190,6 +209,18 @@ def run_shard(shard, ctx):
                 run_case({'part': 'bids', 'spelling': shard['spelling'], 'deriv': shard['deriv'],
                           'suffix': shard['suffix'], 'ext': shard['ext'],
                           'modality': shard['modality'], 'present': list(present)}, ctx, root)
+    elif part == 'calls':
+        with _scratch() as root:
+            menu = _call_menu(shard['family'])
+            for i in range(len(menu)):
+                for j in range(len(menu)):
+                    run_case({'part': 'calls', 'family': shard['family'], 'pair': [i, j]}, ctx, root)
+    elif part == 'bids_trees':
+        with _scratch() as root:
+            for lay in SEQ_LAYOUTS:
+                for idx in range(len(_seq_files(lay))):
+                    for order in ('AB', 'BA'):
+                        run_case({'part': 'bids_trees', 'layout': lay, 'file': idx, 'order': order}, ctx, root)
     elif part == 'bids_seq':
         with _scratch() as root:
             n_files = len(_seq_files(shard['layout']))
@@ -252,6 +283,12 @@ def _run_case(case, ctx, root=None):
     elif part == 'bids_seq':
         with _scratch(root) as d:
             _bids_seq_case(case, ctx, d)
+    elif part == 'bids_trees':
+        with _scratch(root) as d:
+            _bids_trees_case(case, ctx, d)
+    elif part == 'calls':
+        with _scratch(root) as d:
+            _calls_case(case, ctx, d)
     elif part == 'meadows':
         with _scratch(root) as d:
             _meadows_case(case, ctx, d)
@@ -318,18 +355,18 @@ def _bids_file(relpath, layout, ext):
     return bids.BidsMriFile(relpath, layout, _NibabelStub)
 
 
-def _write_marker(root, relpath):
+def _write_marker(root, relpath, tag=''):
     path = os.path.join(root, relpath)
     os.makedirs(os.path.dirname(path), exist_ok=True)
     if relpath.endswith('.json'):
         with open(path, 'w') as fh:
-            fh.write('{"marker": "%s"}' % relpath)
+            fh.write('{"marker": "%s%s"}' % (tag, relpath))
     elif relpath.endswith('.tsv'):
         with open(path, 'w') as fh:
-            fh.write('marker\tn\n%s\t1\n' % relpath)
+            fh.write('marker\tn\n%s%s\t1\n' % (tag, relpath))
     else:
         with open(path, 'w') as fh:
-            fh.write(relpath)
+            fh.write(tag + relpath)
     return path
 
 
@@ -394,6 +431,14 @@ def _bids_case(case, ctx, root):
                     ctx.fail('%s|returned-object-entity=%s' % (sigp, key), sub,
                              'returned %s reports %s=%r' % (got, key, getattr(found, key, None)))
 
+    # ---- the file object handed to the look-ups is the caller's: it must still describe its path
+    after = {k: getattr(base, k, '<no attribute>') for k in ref.ALL_KEYS}
+    changed = [k for k in ref.ALL_KEYS if after[k] != ent[k]]
+    if changed or os.path.normpath(str(base.relpath)) != os.path.normpath(relpath):
+        ctx.fail('BidsLayout.find_*|relpath|modifies-argument:base', dict(case, op='look-ups'),
+                 'after the look-ups the base file %s reports %r (relpath %r)' % (
+                     relpath, {k: after[k] for k in changed}, base.relpath))
+
     # ---- the same look-ups through the file objects, against marker files on disk
     mri = bids.BidsMriFile(relpath, layout, _NibabelStub)
     disk = [('meta', 'BidsFile.get_meta', None, None), ('events', 'BidsMriFile.get_events', None, None)]
@@ -425,7 +470,7 @@ def _bids_case(case, ctx, root):
 
 
 # ------------------------------------------------- BIDS: sequences of look-ups on ONE layout
-SEQ_LAYOUTS = ['deriv_full', 'raw_task']
+SEQ_LAYOUTS = ['deriv_full', 'raw_task', 'numeric']
 SEQ_OPS = ['find_meta_for', 'get_meta', 'find_events_for', 'get_events', 'get_table_sibling',
            'get_mri_sibling', 'all']
 _SEQ_LOOKUP = {'find_meta_for': ('meta', None, None), 'get_meta': ('meta', None, None),
@@ -444,6 +489,14 @@ def _seq_files(name):
         base = ref.bids_entities(ref.OPTIONAL_ENTITIES, v, 'bold', 'nii.gz', 'func', 'fmriprep')
     elif name == 'raw_task':
         base = ref.bids_entities(('task',), v, 'bold', 'nii.gz', 'func', None)
+    elif name == 'numeric':
+        # numeric-looking labels and labels that are prefixes of one another: sub 01 / 1 / 010,
+        # run 1 / 01 / 10, task rest / rest2, desc pre / preproc
+        base = ref.bids_entities(('task', 'run', 'desc'), dict(sub='01', task='rest', run='1', desc='pre'),
+                                 'bold', 'nii.gz', 'func', 'fmriprep')
+        return [base] + [ref.with_changes(base, ch) for ch in (
+            {'sub': '1'}, {'sub': '010'}, {'run': '01'}, {'run': '10'}, {'task': 'rest2'},
+            {'desc': 'preproc'}, {'desc': 'p'})]
     else:
         raise ValueError(name)
     files = [base]
@@ -518,6 +571,138 @@ def _bids_seq_case(case, ctx, root):
                                      'returned %s reports %s=%r' % (got, k, getattr(found, k, None)))
 
 
+def _bids_trees_case(case, ctx, root):
+    """two BidsLayout objects over two different trees that hold the same relative paths: each
+    must read its own tree, whichever was constructed / used first"""
+    from rsatoolbox.io import bids
+    files = _seq_files(case['layout'])
+    ent = files[case['file']]
+    relpath = ref.bids_relpath(ent)
+    roots = {t: os.path.join(root, 'tree' + t) for t in 'AB'}
+    key = (root, case['layout'], 'trees')
+    if key not in _SEQ_READY:
+        for t in 'AB':
+            for e in files:
+                for lookup, desc, suffix in set(_SEQ_LOOKUP.values()):
+                    _write_marker(roots[t], ref.bids_relpath(
+                        ref.with_changes(e, ref.lookup_changes(lookup, desc, suffix))), tag=t + ':')
+        _SEQ_READY.add(key)
+    layouts = {t: bids.BidsLayout(roots[t], nibabel=_NibabelStub) for t in case['order']}
+    for op in ('get_meta', 'get_events', 'get_table_sibling', 'get_mri_sibling'):
+        lookup, desc, suffix = _SEQ_LOOKUP[op]
+        want = ref.bids_relpath(ref.with_changes(ent, ref.lookup_changes(lookup, desc, suffix)))
+        for pos, t in enumerate(case['order']):
+            sub = dict(case, lookup=op, tree=t)
+            ctx.case(sub)
+            sigp = '%s|two-layouts,%s' % (op, 'first-layout' if pos == 0 else 'second-layout')
+            with ctx.guard(sigp, sub):
+                base = bids.BidsMriFile(relpath, layouts[t], _NibabelStub)
+                if op == 'get_meta':
+                    got = base.get_meta().get('marker')
+                elif op == 'get_events':
+                    got = base.get_events()['marker'][0]
+                elif op == 'get_table_sibling':
+                    got = base.get_table_sibling(desc=desc, suffix=suffix).get_frame()['marker'][0]
+                else:
+                    got = base.get_mri_sibling(desc=desc, suffix=suffix).get_data()
+                    got = t + ':' + os.path.relpath(got, roots[t]) if str(got).startswith(roots[t] + os.sep) \
+                        else 'other-tree:' + str(got)
+                if str(got) != t + ':' + want:
+                    ctx.fail(sigp + '|wrong-tree-or-file', sub,
+                             'layout over tree %s answered %r for %s, expected %r' % (t, got, relpath, t + ':' + want))
+
+
+# ------------------------------------------------------- sequences of importer calls
+class _TagCtx:
+    """forwards to a Ctx and writes a tag into the configuration class of every signature"""
+
+    def __init__(self, ctx, tag):
+        object.__setattr__(self, '_c', ctx)
+        object.__setattr__(self, '_t', tag)
+
+    def __getattr__(self, k):
+        return getattr(self._c, k)
+
+    def __setattr__(self, k, v):
+        setattr(self._c, k, v)
+
+    def _sig(self, sig):
+        head, sep, rest = sig.partition('|')
+        return '%s|%s,%s' % (head, self._t, rest) if sep else '%s|%s' % (sig, self._t)
+
+    def fail(self, sig, case, msg=''):
+        self._c.fail(self._sig(sig), case, msg)
+
+    def guard(self, sigprefix, case):
+        return self._c.guard(self._sig(sigprefix), case)
+
+
+CALL_FAMILIES = ['meadows', 'mne', 'design', 'spm']
+
+
+def _call_menu(family):
+    """a few unlike inputs per importer; the 'calls' part runs every ordered pair (A then B in one
+    process, and A twice on the very same input) and judges the later answer like a fresh one"""
+    if family == 'meadows':
+        out = []
+        for sort in (True, False):
+            out += [
+                {'part': 'meadows', 'shape': '1p1t', 'n_stim': 3, 'sort': sort, 'order': [2, 0, 1],
+                 'names': 'png', 'participant': 'cuddly-bunny', 'task_index': 3},
+                # same file name as the one before, other content
+                {'part': 'meadows', 'shape': '1p1t', 'n_stim': 3, 'sort': sort, 'order': [1, 2, 0],
+                 'names': 'prefix_low', 'participant': 'cuddly-bunny', 'task_index': 3},
+                {'part': 'meadows', 'shape': 'Mp1t', 'n_stim': 3, 'sort': sort, 'order': [1, 0, 2],
+                 'names': 'png', 'participants': ['able-fly', 'cuddly-bunny'], 'interleaved': False,
+                 'task_name': 'arrangement'},
+                {'part': 'meadows', 'shape': '1pMt', 'n_stim': 3, 'sort': sort, 'order': [2, 1, 0],
+                 'layout': 'MIM', 'participant': 'informed-mole', 'names': 'prefix'}]
+        return out
+    if family == 'mne':
+        return [{'part': 'mne', 'shape': [2, 2, 3], 'codes': [11, 12], 'sfreq': 20.0, 'tmin': 0.0, 'via': 'object'},
+                {'part': 'mne', 'shape': [3, 1, 2], 'codes': [13, 11, 12], 'sfreq': 100.0, 'tmin': -0.02,
+                 'via': 'object'},
+                {'part': 'mne', 'shape': [2, 2, 3], 'codes': [12, 11], 'sfreq': 20.0, 'tmin': -0.1, 'via': 'fif',
+                 'fname': 'sub-01_run-02_task-abc_epo.fif'}]
+    if family == 'design':
+        grid = BOUNDS['quick']['design_grid']
+        return [{'part': 'design', 'grid': grid, 'assign': [1, 0, 2, 0], 'tr': 1.0, 'n_vols': 20, 'conf': 'two',
+                 'dur': 1.0, 'rows': 'onset'},
+                {'part': 'design', 'grid': grid, 'assign': [2, 1, 0, 1], 'tr': 2.0, 'n_vols': 40,
+                 'conf': 'nan_middle', 'dur': 1.0, 'rows': 'onset'},
+                {'part': 'design', 'grid': grid, 'assign': [1, 1, 0, 0], 'tr': 0.72, 'n_vols': 40, 'conf': 'none',
+                 'dur': 1.0, 'rows': 'onset'},
+                {'part': 'design', 'grid': grid, 'assign': [0, 1, 2, 3], 'tr': 1.0, 'n_vols': 40, 'conf': 'scaled',
+                 'dur': 2.0, 'rows': 'reversed'}]
+    if family == 'spm':
+        out = []
+        for nscans, ncols in (([3, 4], [1, 2]), ([5], [2]), ([2, 2, 3], [1, 1, 2])):
+            for route in ('spm_filter', 'get_residuals'):
+                for fill in (0, 1, 2):
+                    out.append({'part': 'spm', 'nscans': nscans, 'ncols': ncols, 'n_voxels': 2, 'fill': fill,
+                                'route': route})
+        return out
+    raise ValueError(family)
+
+
+def _calls_case(case, ctx, root):
+    menu = _call_menu(case['family'])
+    i, j = case['pair']
+    a, b = menu[i], menu[j]
+    if case['family'] == 'spm':
+        # the state lives in the SpmGlm object: earlier data go through the SAME object
+        if (a['nscans'], a['ncols'], a['route']) != (b['nscans'], b['ncols'], b['route']):
+            return
+        tag = 'same-input-twice' if i == j else 'after-another-call'
+        _run_case(dict(b, prior_fills=[a['fill']]), _TagCtx(ctx, tag), root)
+        return
+    if i == j:
+        _run_case(dict(a, twice=True), _TagCtx(ctx, 'same-input-twice'), root)
+    else:
+        _run_case(a, ctx, root)
+        _run_case(b, _TagCtx(ctx, 'after-another-call'), root)
+
+
 # ------------------------------------------------------------------------------ Meadows
 # stimulus-name alphabets.  The 'prefix_*' sets hold names of which one is a strict prefix of
 # others, continued by characters from both sides of '.' in ASCII (' ' '(' '-' < '.' < digits <
@@ -527,8 +712,11 @@ MAT_NAMES = {'png': ['stim002.png', 'stim010.png', 'stim101.png', 'stim118.png',
              'ragged': ['a.png', 'bb.jpg', 'ccc.png', 'd10.png', 'e.jpeg'],
              'prefix_low': ['dog.jpg', 'dog (2).jpg', 'dog-inv.jpg', 'cat.jpg', 'dog(1).jpg'],
              'prefix_high': ['face.png', 'face_inv.png', 'face2.png', 'facet.png', 'fac.png'],
-             'prefix_mixed': ['a.png', 'a-b.png', 'a_b.png', 'a b.png', 'a1.png']}
-MAT_NAME_SETS = ['png', 'ragged', 'prefix_low', 'prefix_high', 'prefix_mixed']
+             'prefix_mixed': ['a.png', 'a-b.png', 'a_b.png', 'a b.png', 'a1.png'],
+             # numeric-looking labels, prefixes of one another, alphabetical != numerical order
+             'numeric': ['1.png', '10.png', '01.png', '100.png', '2.png']}
+MAT_NAME_SETS = ['png', 'ragged', 'prefix_low', 'prefix_high', 'prefix_mixed', 'numeric']
+MEADOWS_SCALES = [1.0, 1e6, 1e-8]
 JSON_NAMES = {'plain': ['ant', 'beach', 'fireplace', 'river', 'stone'],
               'prefix': ['dog', 'dog (2)', 'dog_b', 'dog-inv', 'dog2']}
 
@@ -538,9 +726,11 @@ def _meadows_cases(shard, b, tier):
     for order in shard['orders']:
         base = {'part': 'meadows', 'shape': shape, 'n_stim': n_stim, 'sort': sort, 'order': list(order)}
         if shape == '1p1t':
-            for names in MAT_NAME_SETS:
+            for k, names in enumerate(MAT_NAME_SETS):
                 for participant, tidx in (('cuddly-bunny', 3), ('able-fly', 12)):
-                    yield dict(base, names=names, participant=participant, task_index=tidx)
+                    # dissimilarities at unusual scales ride along (one scale per name set and file)
+                    scale = MEADOWS_SCALES[(k + tidx + sum(order)) % 3] if tier == 'thorough' or tidx == 12 else 1.0
+                    yield dict(base, names=names, participant=participant, task_index=tidx, scale=scale)
         elif shape == 'Mp1t':
             for n_p in (1, 2, 3):
                 for porder in itertools.permutations(range(n_p)):
@@ -575,6 +765,7 @@ def _utv(file_labels, base_labels, r, seed):
 def _meadows_case(case, ctx, root):
     from rsatoolbox.io import meadows
     shape, n, order, sort = case['shape'], case['n_stim'], case['order'], case['sort']
+    scale = float(case.get('scale', 1.0))
     ctx.case(case, nontrivial=True)
     klass = 'shape=%s,sort=%s' % (shape, sort)
     sigp = 'meadows.load_rdms|' + klass
@@ -610,7 +801,7 @@ def _meadows_case(case, ctx, root):
         base_labels = [ref.stimulus_label(f) for f in base_files]
         file_labels = [ref.stimulus_label(f) for f in file_files]
         if shape == '1p1t':
-            u = _utv(file_labels, base_labels, 0, ctx.seed)
+            u = [v * scale for v in _utv(file_labels, base_labels, 0, ctx.seed)]
             fname = ref.meadows_filename('1p1t', 'myExp', 1, '1D', 'mat',
                                          participant=case['participant'], task_index=case['task_index'])
             fpath = os.path.join(root, fname)
@@ -628,7 +819,14 @@ def _meadows_case(case, ctx, root):
             ref.write_mat_multi(fpath, case['participants'], file_files, utvs, case['interleaved'])
     try:
         with ctx.guard(sigp, case):
+            with open(fpath, 'rb') as fh:
+                content = fh.read()
+            if case.get('twice'):
+                meadows.load_rdms(fpath, sort=sort)
             rdms = meadows.load_rdms(fpath, sort=sort)
+            with open(fpath, 'rb') as fh:
+                if fh.read() != content:
+                    ctx.fail(sigp + '|modifies-argument:file', case, 'the results file was rewritten by the loader')
             if not (len(expected) <= rdms.n_rdm <= len(expected) + len(optional)):
                 ctx.fail(sigp + '|n_rdms', case, '%d RDMs for %d records' % (rdms.n_rdm, len(expected)))
                 return
@@ -652,7 +850,7 @@ def _meadows_case(case, ctx, root):
                 # values: by label pair (independent of order), then as a vector in the expected order
                 want_pairs = ref.pair_values(file_labels, u)
                 got_pairs = ref.pair_values(conds, dis[row])
-                bad = [sorted(k) for k in want_pairs if abs(want_pairs[k] - got_pairs[k]) > 1e-12]
+                bad = [sorted(k) for k in want_pairs if want_pairs[k] != got_pairs[k]]
                 if bad:
                     ctx.fail(sigp + '|value-label-association', case,
                              '%s=%s: pairs %r carry another value than in the file (labels %r, '
@@ -660,7 +858,7 @@ def _meadows_case(case, ctx, root):
                                                                       dis[row].tolist(), file_labels, u))
                 elif conds == want_labels:
                     want_vec = ref.sorted_utv(file_labels, u)[1] if sort else u
-                    if not allclose(dis[row], want_vec, 1e-12):
+                    if not np.array_equal(dis[row], np.asarray(want_vec, dtype=float)):
                         ctx.fail(sigp + '|vector', case, '%r vs %r' % (dis[row].tolist(), want_vec))
                 for dk, dv in extra.items():
                     got = rdms.rdm_descriptors.get(dk)
@@ -672,7 +870,7 @@ def _meadows_case(case, ctx, root):
                 for row in [i for i, v in enumerate(col) if v == value]:
                     want_pairs = ref.pair_values(t_labels, u)
                     got_pairs = ref.pair_values(conds, dis[row])
-                    bad = [sorted(k) for k in want_pairs if abs(want_pairs[k] - got_pairs[k]) > 1e-12]
+                    bad = [sorted(k) for k in want_pairs if want_pairs[k] != got_pairs[k]]
                     if bad:
                         ctx.fail(sigp + ',task-with-other-stimulus-order|value-label-association', case,
                                  '%s=%s lists its stimuli as %r; loaded under labels %r the pairs %r carry another '
@@ -710,7 +908,13 @@ def _mne_case(case, ctx, root):
                 data[e, c, t] = 100 * (e + 1) + 10 * c + t
     if via == 'object':
         data = data + np.round(g.uniform(0, 0.5, size=data.shape), 4)
-    events = np.array([[10 * (i + 1), 50 + i, code] for i, code in enumerate(case['codes'])], dtype=int)
+    # physical scales: arbitrary units, volts of an EEG (1e-6), large numbers close together (1e6 + ...)
+    data = data * (1.0, 1e-6, 1e6)[(ne + 2 * nc + nt + len(str(case['codes']))) % 3]
+    codes = [int(c) for c in case['codes']]
+    if via == 'fif':
+        codes = [1000000 + c for c in codes]          # large event codes close together
+    events = np.array([[10 * (i + 1), 50 + i, code] for i, code in enumerate(codes)], dtype=int)
+    descriptors = {'subject': 'p07', 'session': 2}
     names = CH_NAMES[:nc]
     info = mne.create_info(ch_names=list(names), ch_types='eeg', sfreq=case['sfreq'])
     epochs = mne.EpochsArray(data.copy(), info, events.copy(), tmin=case['tmin'])
@@ -719,11 +923,20 @@ def _mne_case(case, ctx, root):
     try:
         with ctx.guard(sigp, case):
             if via == 'object':
-                ds = rmne.dataset_from_epochs(epochs)
+                if case.get('twice'):
+                    rmne.dataset_from_epochs(epochs, descriptors)
+                ds = rmne.dataset_from_epochs(epochs, descriptors)
                 tol = 0.0
+                if descriptors != {'subject': 'p07', 'session': 2}:
+                    ctx.fail(sigp + '|modifies-argument:descriptors', case, 'descriptors dict now %r' % descriptors)
+                if not (np.array_equal(epochs.get_data(), data) and np.array_equal(epochs.events, events)
+                        and list(epochs.ch_names) == list(names)):
+                    ctx.fail(sigp + '|modifies-argument:epochs', case, 'the epochs object changed during the call')
             else:
                 fpath = os.path.join(root, case['fname'])
                 epochs.save(fpath, overwrite=True, verbose='error')
+                if case.get('twice'):
+                    rmne.read_epochs(fpath)
                 ds = rmne.read_epochs(fpath)
                 tol = 1e-6
             meas = np.asarray(ds.measurements)
@@ -731,12 +944,13 @@ def _mne_case(case, ctx, root):
                 ctx.fail(sigp + '|shape', case, 'measurements %r for epochs %r' % (meas.shape, (ne, nc, nt)))
                 return
             ctx.dev('mne data ' + via, maxreldev(meas, data))
-            if not (np.array_equal(meas, data) if tol == 0.0 else allclose(meas, data, tol)):
+            if not (np.array_equal(meas, data) if tol == 0.0 else
+                    float(np.abs(meas - data).max()) <= tol * float(np.abs(data).max())):
                 ctx.fail(sigp + '|data', case, 'measurements differ from the epochs data (max rel dev %g)'
                          % maxreldev(meas, data))
             ev = ds.obs_descriptors.get('event')
-            if ev is None or [int(v) for v in ev] != [int(c) for c in case['codes']]:
-                ctx.fail(sigp + '|event-codes', case, 'event %r, codes %r' % (ev, case['codes']))
+            if ev is None or [int(v) for v in ev] != codes:
+                ctx.fail(sigp + '|event-codes', case, 'event %r, codes %r' % (ev, codes))
             ch = ds.channel_descriptors.get('name')
             if ch is None or [str(v) for v in ch] != names:
                 ctx.fail(sigp + '|channel-names', case, 'name %r, channels %r' % (ch, names))
@@ -781,6 +995,9 @@ def _confound_table(kind, n_vols, g):
         return {'csf': last, 'trans_x': c1, 'rot_z': c2, 'trans_x_derivative1': d}
     if kind == 'all_nan':
         return {'trans_x': c1, 'motion_outlier': np.full(n_vols, np.nan), 'rot_z': c2}
+    if kind == 'scaled':
+        # tiny values, huge values, large numbers close together, and one incomplete column
+        return {'trans_x': c1 * 1e-8, 'rot_z': c2 * 1e6, 'global_signal': c3 + 1e6, 'csf': mid * 1e6}
     raise ValueError(kind)
 
 
@@ -806,7 +1023,19 @@ def _design_case(case, ctx):
                                   None if conf_cols is None else [list(v) for v in conf_cols.values()])
     sigp = 'make_design_matrix|conf=%s' % case['conf']
     with ctx.guard(sigp, case):
+        # snapshots of the caller's tables, taken from the harness' own lists (cheaper than pandas copies)
+        events0 = [[float(o), float(case['dur']), t] for o, t in zip(onsets, types)]
+        conf0 = None if conf_cols is None else np.column_stack([np.asarray(v, dtype=float) for v in conf_cols.values()])
+        if case.get('twice'):
+            make_design_matrix(events, tr, n_vols, conf)
         dm, mask, dof = make_design_matrix(events, tr, n_vols, conf)
+        if not (events.values.tolist() == events0 and list(events.columns) == ['onset', 'duration', 'trial_type']
+                and list(events.index) == list(range(len(rows)))):
+            ctx.fail('%s|modifies-argument:events' % sigp, case, 'the events table handed in was changed')
+        if conf is not None and not (conf.shape == conf0.shape and list(conf.columns) == list(conf_cols)
+                                     and np.array_equal(conf.values, conf0, equal_nan=True)
+                                     and list(conf.index) == list(range(n_vols))):
+            ctx.fail('%s|modifies-argument:confounds' % sigp, case, 'the confounds table handed in was changed')
         dm = np.asarray(dm, dtype=float)
         mask = np.asarray(mask)
         ctx.outcome(('design', dm.shape, tuple(bool(m) for m in mask.tolist()), int(dof)))
@@ -851,7 +1080,10 @@ def _design_case(case, ctx):
             clean = [v for v in conf_cols.values() if not np.isnan(v).any()]
             got = dm[:, ~mask]
             for c, src in enumerate(clean):
-                if not ref.affine_related(src, got[:, c], 1e-9):
+                # the comparison is limited by the conditioning of the column (offset / spread)
+                spread = float(np.max(src) - np.min(src))
+                tol_c = max(1e-9, 1e-13 * float(np.abs(src).max()) / spread) if spread > 0 else 1e-9
+                if not ref.affine_related(src, got[:, c], tol_c):
                     ctx.fail(sigp + '|confound-column-content', case,
                              'confound column %d is not the given confound up to shift and scale' % c)
 
@@ -879,7 +1111,9 @@ def _spm_data(nscans, nvox, fill, seed):
         y[:, 0] += 1            # a mean, so that every run has a component in a constant regressor
         return y
     g = rng_for(seed, 'spm', total, nvox, fill)
-    return np.round(g.normal(size=(total, nvox)) + 0.5 * fill, 3)
+    y = np.round(g.normal(size=(total, nvox)) + 0.5 * fill, 3)
+    # one scale per run structure: ordinary, raw scanner units (1e6), tiny (1e-8)
+    return y * (1.0, 1e6, 1e-8)[(total + 2 * len(nscans) + nscans[0] + fill) % 3]
 
 
 def _spm_case(case, ctx):
@@ -894,7 +1128,7 @@ def _spm_case(case, ctx):
     total, runs = sum(nscans), len(nscans)
     y = _spm_data(nscans, nvox, case['fill'], ctx.seed)
     want = ref.filtered_reference(y, nscans, bases)
-    nontrivial = not allclose(want, y, 1e-6)
+    nontrivial = float(np.abs(want - y).max()) > 1e-6 * (float(np.abs(y).max()) or 1.0)
     ctx.case(case, nontrivial=nontrivial)
     bounds = ref.run_bounds(nscans)
     # design: one regressor per run, already filtered (SPM stores the filtered design)
@@ -917,18 +1151,33 @@ def _spm_case(case, ctx):
                'pKX': np.linalg.pinv(x)}}}
     route = case['route']
     sigp = 'SpmGlm.%s|any' % route
-    scale = max(1.0, float(np.abs(y).max()))
+    scale = float(np.abs(y).max()) or 1.0
     with ctx.guard(sigp, case):
         nitools = _NitoolsStub(y)
         with patch.object(rspm, 'loadmat', return_value=stub):
             glm = rspm.SpmGlm('/scratch/proj/glm_firstlevel', nitools)
             glm.get_info_from_spm_mat()
+        for pf in case.get('prior_fills', []):
+            # earlier data through the SAME object: they must leave no trace
+            yp = _spm_data(nscans, nvox, pf, ctx.seed)
+            if route == 'spm_filter':
+                glm.spm_filter(np.array(yp, copy=True))
+            else:
+                nitools.data = yp
+                glm.get_residuals('roi_mask.nii')
+        nitools.data = y
         if route == 'spm_filter':
-            out = np.asarray(glm.spm_filter(np.array(y, copy=True)), dtype=float)
+            y_in = np.array(y, copy=True)
+            out = np.asarray(glm.spm_filter(y_in), dtype=float)
             ref_out = want
+            if y_in.dtype != y.dtype or not np.array_equal(y_in, y):
+                ctx.fail(sigp + '|modifies-argument:data', case, 'the array handed to spm_filter was changed')
         else:
             out = np.asarray(glm.get_residuals('roi_mask.nii')[0], dtype=float)
             ref_out = want - x @ (np.linalg.pinv(x) @ want)
+        for k, (b0, b1) in enumerate(zip(bases, stub['SPM']['xX']['K'])):
+            if not np.array_equal(b0, b1['X0']):
+                ctx.fail(sigp + '|modifies-argument:X0', case, 'filter matrix of run %d was changed' % k)
         if out.shape != y.shape:
             ctx.fail(sigp + '|shape', case, 'shape %r for data %r' % (out.shape, y.shape))
             return
